@@ -40,6 +40,8 @@ e3e2fb6 C18 C18-cancelled-subscribe-never-unsubscribed
 d862e19 C02 C02-array-shaped-entry-parsed-positionally
 eb4291f C19 C19-streamed-oversize-answered-500
 ce92150 C05 C05-stale-handle-closes-successor
+79f0862 C12 C12-batch-reply-id-of-other-json-type
+d63250d C09 C09-send-hangs-while-read-side-fails
 LIST
 rm -rf /verif/replays
 (cd /verif/sim && cargo build --release --offline -q 2>/dev/null)
